@@ -142,6 +142,15 @@ class SymMatrix:
     def getformat(self):
         return "csr"
 
+    def nonzero(self):
+        rows, cols = [], []
+        for i in range(self.a.shape[0]):
+            for j in range(self.a.shape[1]):
+                if not _isnum0(self.a[i, j]):
+                    rows.append(i)
+                    cols.append(j)
+        return _np.asarray(rows, dtype=int), _np.asarray(cols, dtype=int)
+
     def diagonal(self):
         return _np.array([self.a[i, i] for i in range(min(self.a.shape))], dtype=object)
 
@@ -172,12 +181,12 @@ class SymMatrix:
             rk = _np.asarray(rk)
             if rk.dtype == bool:
                 rk = _np.where(rk)[0]
-            return SymMatrix(self.a[rk][:, ck])
+            return SymMatrix(self.a[rk.astype(int)][:, ck])
         if c_arr:
             ck = _np.asarray(ck)
             if ck.dtype == bool:
                 ck = _np.where(ck)[0]
-            return SymMatrix(self.a[rk][:, ck])
+            return SymMatrix(self.a[rk][:, ck.astype(int)])
         return SymMatrix(self.a[rk, ck])
 
     def __setitem__(self, key, val):
@@ -247,9 +256,9 @@ class SymMatrix:
         return SymMatrix(self.a * self._dense(o).astype(object))
 
     def __matmul__(self, o):
-        vec = isinstance(o, _np.ndarray) and o.ndim == 1
-        res = _matmul(self.a, self._dense(o) if not vec else o)
-        if vec:
+        dense_operand = isinstance(o, _np.ndarray)  # scipy semantics: sparse @ dense ndarray -> dense ndarray
+        res = _matmul(self.a, self._dense(o) if not dense_operand else o)
+        if dense_operand:
             return res
         return SymMatrix(res)
 
